@@ -193,6 +193,13 @@ def injector_cases():
         for tmpl in ('SELECT {} FROM #t', 'SELECT i FROM #t WHERE {} = s', 'SELECT count(*) FROM #t GROUP BY {}', 'SELECT i FROM #t ORDER BY {}',
                      'SELECT i, count(*) FROM #t GROUP BY i HAVING count(*) > 0 AND str({}) = "x"', 'SELECT i IN (SELECT j FROM #t WHERE str({}) = s) FROM #t'):
             add('constant-cannot-be-evaluated', tmpl.format(expr), R)
+    # an existing table without rows (list-backed: its truth value is False)
+    add('empty-table', 'SELECT i, s FROM #nostock', A)
+    add('empty-table', 'SELECT s, count(*) FROM #nostock GROUP BY s', A)
+    add('empty-table', 'SELECT i FROM #t WHERE i IN (SELECT i FROM #nostock)', A)
+    add('empty-table', 'SELECT * FROM (SELECT i FROM #nostock)', A)
+    add('empty-table', 'SELECT nosuch FROM #nostock', R)
+    add('empty-table', 'SELECT i, count(*) FROM #nostock GROUP BY s', R)
     # coalesce
     add('coalesce', 'SELECT coalesce(i, j) FROM #t', A)
     add('coalesce', 'SELECT coalesce(i, 1) FROM #t', A)
@@ -567,7 +574,25 @@ def run_history(ctx, n):
 def make_conn(rng):
     led = ledgers.gen_ledger(rng, ntxn=6)
     mt = gen.gen_table(rng, 't', max_rows=6)
-    return engine.connection([mt], ledger=led.loaded)
+    conn = engine.connection([mt], ledger=led.loaded)
+    # a list-backed table (it has a length) that holds no row: an existing table all the same
+    from beanquery import tables as _tables
+    base = engine.harness_table(model.ModelTable('nostock', [('i', T_INT), ('s', T_STR)], []))
+
+    class ListTable(_tables.Table):
+        name = 'nostock'
+        columns = base.columns
+
+        def __init__(self):
+            self.rows = []
+
+        def __len__(self):
+            return len(self.rows)
+
+        def __iter__(self):
+            return iter(self.rows)
+    conn.tables['nostock'] = ListTable()
+    return conn
 
 
 def run(ctx):
